@@ -382,7 +382,7 @@ var historyFacet = harness.Register(&harness.Facet[histCase]{
 	Name:     "index-length-history",
 	Rule:     "rapid: an array of ≤ 4 elements/holes and a history of 1–4 steps from {R[key]=v, delete R[key], key in R, R[key], R.length=v, defineProperty(R,key,{value,writable,configurable}), defineProperty(R,'length',{value?,writable}), push, pop, freeze, seal, preventExtensions}; keys from the index-spelling pool (\"0\" \"01\" \"+1\" \"-0\" \"1.0\" \"1e0\" \" 1\" \"00\" \"007\" \"0x1\" \"4294967294\" \"4294967295\" \"4294967296\" …, and numeric keys -0, 1.5, 2^32-2, 2^32-1, 2^32, 1e21, NaN), length values from the odd pool (fractions, negatives, NaN, 2^32-1, 2^32, numeric strings, booleans, null, undefined, valueOf/toString objects); after every step the value of the expression, the thrown class, the conversion log and the whole array state (own properties with attributes, extensibility) are compared with the lib/m08 model of ES5.1 15.4.5.1/8.12, and the length invariant (length integer in [0,2^32-1], above every own array index) is checked on otto's state alone; non-trivial = some step is not a plain set/get/has/push with a small canonical index; distinct by the whole history",
 	Quick:    7000,
-	Thorough: 50000,
+	Thorough: 35000,
 	Gen:      genHistory,
 	Check:    checkHistory,
 })
@@ -445,7 +445,7 @@ var sparseFacet = harness.Register(&harness.Facet[histCase]{
 	Name:     "sparse-shrink-history",
 	Rule:     "rapid: an array of ≤ 3 elements and a history of 3–9 steps from {R[i]=v, defineProperty(R,i,{…, configurable mostly false}), R.length=n, delete R[i], push, pop, seal, defineProperty(R,'length',…)} with indices drawn independently from 0..40 (so elements are created in arbitrary, not ascending, order and the array stays sparse) and lengths from 0..41, half of the histories ending with a length assignment; every step compared with the lib/m08 model of 15.4.5.1 (shrinking deletes strictly from the highest index down and stops at the first non-configurable element) and the length invariant checked on otto's state alone; non-trivial = some step is not a plain set/get/has/push with a small index; distinct by the whole history",
 	Quick:    5000,
-	Thorough: 25000,
+	Thorough: 12000,
 	Gen:      genSparseHistory,
 	Check:    checkHistory,
 })
